@@ -34,7 +34,7 @@ IOPS = {'+': operator.iadd, '-': operator.isub, '*': operator.imul, '/': operato
 def gates(tier):
     return {'raw_ops': 8000, 'raw_value_outcomes': 1500, 'raw_error_outcomes': 3000,
             'string_evals': 3000, 'string_error_outcomes': 800, 'triple_products': 100,
-            'negpow_disabled_calls': 100, 'identity_dim_calls': 400, 'inplace_ops': 1500, 'reflected_ops': 1500, 'division_chain_checks': 500, 'negpow_disabled_calls_with_suppressed_messages': 40}
+            'negpow_disabled_calls': 100, 'identity_dim_calls': 400, 'inplace_ops': 1500, 'reflected_ops': 1500, 'division_chain_checks': 500, 'exact_scalar_divisions': 60, 'negpow_disabled_calls_with_suppressed_messages': 40}
 
 
 def is_scalar(x):
@@ -478,6 +478,44 @@ def run_division_chains(ctx):
                         ctx.violation('C14:strings:division_chain:value', '%r = %r, expected %r' % (spelled, out.value, want), wit)
 
 
+def run_exact_scalar_division(ctx):
+    """array / scalar is the elementwise quotient, each entry correctly rounded (IEEE division): no detour through a reciprocal, which
+    is off by an ulp for divisors like 3, 10, 49 and overflows for subnormal divisors."""
+    from mitxgraders.helpers.calc import evaluator, DEFAULT_FUNCTIONS, DEFAULT_VARIABLES, MathArray
+    rng = ctx.rng
+    divisors = [3.0, 10.0, 49.0, 7.0, 0.1, 1e-310, 5e-324, 1e300, -3.0, 2.0, 1 / 3., 6, 1e-308]
+    for rep in range(ctx.n(120, 2000)):
+        shape = rng.choice([(2,), (3,), (2, 2), (2, 3)])
+        mag = rng.choice([1.0, 1.0, 1e-300, 1e-305, 1e10])
+        vals = np.array([rng.choice([1.0, 2.0, 5.0, 7.0, 49.0, 0.3, -1.7, 123.456]) * mag for _ in range(int(np.prod(shape)))]).reshape(shape)
+        b = rng.choice(divisors)
+        with np.errstate(all='ignore'):
+            want = vals / b
+        if not np.all(np.isfinite(want)):
+            continue
+        a = MathArray(vals.copy())
+        via = rng.choice(['truediv', 'itruediv', 'string'])
+        if via == 'truediv':
+            out = lib.call(ctx, lambda: a / b)
+        elif via == 'itruediv':
+            def inplace():
+                c = MathArray(vals.copy())
+                c /= b
+                return c
+            out = lib.call(ctx, inplace)
+        else:
+            variables = dict(DEFAULT_VARIABLES, A=a, b=b)
+            out = lib.call(ctx, lambda: evaluator('A/b', variables, DEFAULT_FUNCTIONS, {}, max_array_dim=2)[0])
+        ctx.ev()
+        ctx.count('exact_scalar_divisions')
+        ctx.nontrivial(['exactdiv', vals.tolist(), b, via])
+        wit = {'array': vals.tolist(), 'divisor': b, 'route': via, 'expected': want.tolist(), 'outcome': out.brief()}
+        if not out.returned:
+            ctx.violation('C14:scalar_division:raises', repr(out.exc)[:200], wit)
+        elif np.shape(out.value) != np.shape(want) or not np.array_equal(np.asarray(out.value), want):
+            ctx.violation('C14:scalar_division:value', 'array / %r = %r, the elementwise quotient is %r' % (b, out.value, want.tolist()), wit)
+
+
 def run_identity(ctx):
     """MatrixGrader(identity_dim=n): the constant I is the n x n identity and obeys the same shape rules."""
     from mitxgraders import MatrixGrader, RealMatrices
@@ -521,6 +559,7 @@ def run(ctx):
         run_strings(ctx)
     run_grader(ctx)
     run_division_chains(ctx)
+    run_exact_scalar_division(ctx)
     run_identity(ctx)
     lib.repo_tests_under_monitor(ctx, 'C14', ['state'])
     if ctx.shard == 0:
